@@ -2466,3 +2466,9 @@ variant('t-position-decoded-leniently-behind-a-length-test', ['C04'], 'rsocket/f
         "        return struct.unpack('>Q', chunk)[0] & MASK_63_BITS",
         "        if len(chunk) != 8:\n            raise struct.error('position needs 8 bytes')\n        return int.from_bytes(chunk, 'big') & MASK_63_BITS",
         kind='twin')
+
+# C03.k read sizes positive
+variant('b-mixed-fragment-reserves-the-metadata-length', ['C03'], 'rsocket/frame_fragmenter.py',
+        "        data_fragment = data_reader.read(expected_data_fragment_length)\n",
+        "        if len(last_metadata_fragment) > 0:\n            expected_data_fragment_length -= 3\n        data_fragment = data_reader.read(expected_data_fragment_length)\n",
+        ('C03.k', 'FrameFragmenter.__iter__'))
